@@ -711,7 +711,7 @@ func (g *gen) stmt(depth int, rets []*Type, allowReturn bool) stmt {
 	arrays := g.varsOf(func(v variable) bool { return !v.ro && v.t.Kind == KArr })
 	structs := g.varsOf(func(v variable) bool { return !v.ro && v.t.Kind == KStruct })
 	for {
-		switch g.r.Intn(15) {
+		switch g.r.Intn(16) {
 		case 0, 1: // var x T = e
 			t := g.scalarType()
 			e := g.expr(t, g.cfg.MaxDepth)
@@ -897,6 +897,69 @@ func (g *gen) stmt(depth int, rets []*Type, allowReturn bool) stmt {
 					v.E[i] = e.eval(en)
 				}
 				en.def(name, v)
+				return false
+			}}
+		case 15: // a multi-dimensional array: stores into and reads from several elements
+			if !g.cfg.Arrays {
+				continue
+			}
+			et := g.intType()
+			dims := []int{g.r.Range(2, 3), g.r.Range(2, 3)}
+			if g.r.Intn(3) == 0 {
+				dims = append(dims, 2)
+			}
+			total := 1
+			tsrc := ""
+			for _, d := range dims {
+				total *= d
+				tsrc += fmt.Sprintf("[%d]", d)
+			}
+			name := g.fresh("m")
+			sub := func(flat int) string {
+				var idx []int
+				for k := len(dims) - 1; k >= 0; k-- {
+					idx = append([]int{flat % dims[k]}, idx...)
+					flat /= dims[k]
+				}
+				out := name
+				for _, i := range idx {
+					out += fmt.Sprintf("[%d]", i)
+				}
+				return out
+			}
+			type store struct {
+				flat int
+				op   string
+				e    expr
+			}
+			var stores []store
+			lines := []string{fmt.Sprintf("var %s %s%s", name, tsrc, et.Src())}
+			for k := g.r.Range(2, 5); k > 0; k-- {
+				st := store{flat: g.r.Intn(total), e: g.expr(et, depth)}
+				if g.r.Intn(4) == 0 {
+					st.op = vrt.Pick(g.r, []string{"+", "^", "|"})
+				}
+				stores = append(stores, st)
+				lines = append(lines, fmt.Sprintf("%s %s= %s", sub(st.flat), st.op, st.e.src))
+			}
+			r1, r2, r3 := g.r.Intn(total), g.r.Intn(total), stores[0].flat
+			res := g.fresh("v")
+			lines = append(lines, fmt.Sprintf("var %s %s = %s + (%s ^ %s)", res, et.Src(), sub(r1), sub(r2), sub(r3)))
+			g.declareAfter(variable{name: res, t: et})
+			g.feat["multi-dim-array"] = true
+			return stmt{lines: lines, exec: func(en *env) bool {
+				m := make([]*big.Int, total)
+				for i := range m {
+					m[i] = new(big.Int)
+				}
+				for _, st := range stores {
+					v := st.e.eval(en).I
+					if st.op != "" {
+						v = applyBin(st.op, et, m[st.flat], v)
+					}
+					m[st.flat] = v
+				}
+				en.def(res, Val{T: et, I: applyBin("+", et, m[r1], applyBin("^", et, m[r2], m[r3]))})
 				return false
 			}}
 		case 14: // the same assignment guarded by different inner conditions in the two arms of an if/else
